@@ -71,7 +71,7 @@ def main():
         ],
         "checks": checks,
         "not_applicable": na,
-        "notes": "All checks: cwd /verif, /venv/bin/python, PYTHONPATH=/repo/src:/verif, PYTHONHASHSEED=0 (set by ./check). Exit 0 held / 1 VIOLATION / 2 harness error (never a verdict). Genuine defects: /verif/known_findings.json (2 open -> KNOWN-FINDING lines for C08 and C19; 19 fixed, each a 'fix:' commit in /repo). Detection: /verif/seeded/RESULTS.md (every kept seeded change vs the quick check of its property). All twenty quick checks together take about 4 minutes on 16 idle cores; thorough tiers from under a minute to about an hour (C07) and two hours (C01).",
+        "notes": "All checks: cwd /verif, /venv/bin/python, PYTHONPATH=/repo/src:/verif, PYTHONHASHSEED=0 (set by ./check). Exit 0 held / 1 VIOLATION / 2 harness error (never a verdict). Genuine defects: /verif/known_findings.json (3 open -> KNOWN-FINDING lines for C01, C08 and C19; 19 fixed, each a 'fix:' commit in /repo). Detection: /verif/seeded/RESULTS.md (every kept seeded change vs the quick check of its property). All twenty quick checks together take about 4 minutes on 16 idle cores; thorough tiers from under a minute to about an hour (C07) and two hours (C01).",
     }
     import jsonschema
 
